@@ -261,7 +261,7 @@ func (s *scn) genSpecs() {
 			s.specs[i] = spec{exit: "sig", stopBlocks: s.r.Bool()}
 		}
 		s.specs[0].stateable = true
-	case "gatefail":
+	case "gatefail", "gatecancel":
 		// an earlier runnable fails while the supervisor is inside IsRunning() of a later gate
 		s.specs = make([]spec, 3+s.r.Intn(2))
 		for i := range s.specs {
@@ -693,6 +693,33 @@ func (s *scn) preludeGatefail() {
 	}
 }
 
+// preludeGatecancel (witness of C03_pending_refuted): while the gate's IsRunning() call is pending,
+// let runnable 0 fail and wait until its error is queued; then cancel the parent context and answer
+// false: the select in blockUntilRunnableReady has errorChan and ctx.Done ready at once.
+func (s *scn) preludeGatecancel() {
+	c1 := s.cores[1]
+	deadline := time.Now().Add(3 * time.Second)
+	for !c1.PollPending.Load() && time.Now().Before(deadline) {
+		time.Sleep(200 * time.Microsecond)
+	}
+	if !c1.PollPending.Load() {
+		return
+	}
+	s.quiesce()
+	s.runReleased[0] = true
+	s.cores[0].RunRelease <- s.mkErr(false)
+	s.quiesce()
+	s.shutdownTriggered = true
+	s.parentCancelled = true
+	s.rec.Emit("ParentCancel")
+	s.pcancel()
+	select {
+	case c1.PollRelease <- false:
+	case <-time.After(time.Second):
+	}
+	s.quiesce()
+}
+
 // preludeFinalState: park runnable 0's state monitor (inside its broadcast, on a log record) while
 // the runnable goes Stopping -> Stopped during shutdown, then let it continue.
 func (s *scn) preludeFinalState() {
@@ -802,6 +829,9 @@ func (s *scn) run() {
 	s.rec.WaitQuiescent(3 * time.Second)
 	if s.family == "gatefail" {
 		s.preludeGatefail()
+	}
+	if s.family == "gatecancel" {
+		s.preludeGatecancel()
 	}
 	if s.family == "finalstate" {
 		s.preludeFinalState()
